@@ -45,6 +45,7 @@ class Task:
         self.blocked_on = None
         self.invoke_ev = None
         self.return_ev = None
+        self.abandoned = False
         self.thread = threading.Thread(target=self._run, name=name, daemon=True)
         self.ident = None
 
@@ -80,6 +81,8 @@ class Sim:
         self.sched_lock.acquire()
         self.in_probe = 0
         self.probe_gen = 0
+        self.lock_universe = 0        # see CoopLock
+        self.restarts = 0
         self.stats = Counter()
         self.line_prefixes = tuple(line_prefixes)
         self.mean_quantum = mean_quantum
@@ -146,6 +149,24 @@ class Sim:
         self.sched_lock.release()        # give the baton back
         t.lock.acquire()                 # and wait for it
 
+    def abandon_others(self):
+        """process death takes every thread with it: all other live tasks stay parked for ever"""
+        for t in self.tasks:
+            if t is not self.cur and not t.done:
+                t.abandoned = True
+                t.done = True
+                t.return_ev = self.evno
+
+    def abandon_current(self):
+        """simulated process death seen from a task: the thread is parked for ever (its Python-level buffers
+        are never flushed, its finally-blocks never run) and the scheduler treats it as gone"""
+        t = self.cur
+        t.abandoned = True
+        t.done = True
+        t.return_ev = self.evno
+        self.sched_lock.release()
+        t.lock.acquire()             # never released again
+
     def block_on(self, lock):
         t = self.cur
         t.blocked_on = lock
@@ -194,7 +215,8 @@ class Sim:
         done = self.tasks
         self.tasks = []
         for t in done:
-            t.thread.join()
+            if not t.abandoned:
+                t.thread.join()
         return done
 
     # -- line-level pre-emption ------------------------------------------------
@@ -236,42 +258,46 @@ _real_alloc = _thread.allocate_lock
 
 
 class CoopLock:
-    """A probe is a forked universe (a restarted process): locks held in the main
-    universe must look free there, so inside a probe a per-probe shadow lock is used."""
+    """Lock state exists once per *universe*.  Universe 0 is the process the run started in.  A crash
+    probe is a forked universe (a restarted process on a disk snapshot) and a simulated crash-and-restart
+    starts a new universe too: in both, locks held by the old process must look free, so every universe
+    other than 0 gets its own lock object, created on first use."""
 
     def __init__(self):
         self._l = _real_alloc()
-        self._shadow = None
+        self._others = None          # universe id -> lock
 
-    def _probe_lock(self, sim):
-        sh = self._shadow
-        if sh is None or sh[0] != sim.probe_gen:
-            sh = self._shadow = (sim.probe_gen, _real_alloc())
-        return sh[1]
+    def _lock(self, sim):
+        if sim is None or sim.lock_universe == 0:
+            return self._l
+        d = self._others
+        if d is None:
+            d = self._others = {}
+        u = sim.lock_universe
+        l = d.get(u)
+        if l is None:
+            if len(d) > 12:
+                for k in [k for k in d if k[0] == "probe"]:
+                    del d[k]         # finished probes are never re-entered; restart universes are kept
+            l = d[u] = _real_alloc()
+        return l
 
     def acquire(self, blocking=True, timeout=-1):
         sim = CURRENT
-        if sim is not None and sim.in_probe:
-            return self._probe_lock(sim).acquire(blocking, timeout)
-        if sim is None or not sim._on_task():
-            return self._l.acquire(blocking, timeout)
-        while not self._l.acquire(False):
+        l = self._lock(sim)
+        if sim is None or sim.in_probe or not sim._on_task():
+            return l.acquire(blocking, timeout)
+        while not l.acquire(False):
             if not blocking:
                 return False
-            sim.block_on(self._l)
+            sim.block_on(l)
         return True
 
     def release(self):
-        sim = CURRENT
-        if sim is not None and sim.in_probe:
-            return self._probe_lock(sim).release()
-        self._l.release()
+        self._lock(CURRENT).release()
 
     def locked(self):
-        sim = CURRENT
-        if sim is not None and sim.in_probe:
-            return self._probe_lock(sim).locked()
-        return self._l.locked()
+        return self._lock(CURRENT).locked()
 
     __enter__ = acquire
 
@@ -280,43 +306,48 @@ class CoopLock:
 
     def _at_fork_reinit(self):
         self._l._at_fork_reinit()
-        self._shadow = None
+        self._others = None
 
 
 class _RState:
-    __slots__ = ("block", "owner", "count")
+    __slots__ = ("owner", "count")
 
     def __init__(self):
-        self.block = CoopLock()
         self.owner = None
         self.count = 0
 
 
 class CoopRLock:
-    """re-entrant lock on top of CoopLock.  Inside a probe (a restarted process) a fresh per-probe state
-    is used, so ownership recorded in the main universe is neither seen nor disturbed."""
+    """re-entrant lock on top of CoopLock, with owner/count kept per universe as well"""
 
     def __init__(self):
+        self._block = CoopLock()
         self._main = _RState()
-        self._shadow = None
+        self._others = None
 
     def _st(self):
         sim = CURRENT
-        if sim is not None and sim.in_probe:
-            sh = self._shadow
-            if sh is None or sh[0] != sim.probe_gen:
-                sh = self._shadow = (sim.probe_gen, _RState())
-                # the shadow state's own CoopLock must not shadow again: use its real lock directly
-            return sh[1], True
-        return self._main, False
+        if sim is None or sim.lock_universe == 0:
+            return self._main
+        d = self._others
+        if d is None:
+            d = self._others = {}
+        u = sim.lock_universe
+        st = d.get(u)
+        if st is None:
+            if len(d) > 12:
+                for k in [k for k in d if k[0] == "probe"]:
+                    del d[k]
+            st = d[u] = _RState()
+        return st
 
     def acquire(self, blocking=True, timeout=-1):
-        st, shadow = self._st()
+        st = self._st()
         me = _thread.get_ident()
         if st.owner == me:
             st.count += 1
             return True
-        rc = st.block._l.acquire(blocking, timeout) if shadow else st.block.acquire(blocking, timeout)
+        rc = self._block.acquire(blocking, timeout)
         if rc:
             st.owner = me
             st.count = 1
@@ -325,50 +356,40 @@ class CoopRLock:
     __enter__ = acquire
 
     def release(self):
-        st, shadow = self._st()
+        st = self._st()
         if st.owner != _thread.get_ident():
             raise RuntimeError("cannot release un-acquired lock")
         st.count -= 1
         if not st.count:
             st.owner = None
-            if shadow:
-                st.block._l.release()
-            else:
-                st.block.release()
+            self._block.release()
 
     def __exit__(self, *a):
         self.release()
 
     def locked(self):
-        st, shadow = self._st()
-        return st.block._l.locked()
+        return self._block.locked()
 
     def _at_fork_reinit(self):
+        self._block._at_fork_reinit()
         self._main = _RState()
-        self._shadow = None
+        self._others = None
 
     # condition-variable support (threading.Condition uses these if present)
     def _is_owned(self):
-        st, _ = self._st()
-        return st.owner == _thread.get_ident()
+        return self._st().owner == _thread.get_ident()
 
     def _release_save(self):
-        st, shadow = self._st()
+        st = self._st()
         count, owner = st.count, st.owner
         st.count = 0
         st.owner = None
-        if shadow:
-            st.block._l.release()
-        else:
-            st.block.release()
+        self._block.release()
         return (count, owner)
 
     def _acquire_restore(self, state):
-        st, shadow = self._st()
-        if shadow:
-            st.block._l.acquire()
-        else:
-            st.block.acquire()
+        self._block.acquire()
+        st = self._st()
         st.count, st.owner = state
 
 
